@@ -154,6 +154,14 @@ FindIn(st, c, n, lin) ==
       hits == {i \in 1..Len(seq) : n \in DOMAIN st.cont[seq[i]]}
   IN IF hits = {} THEN NoObj ELSE st.cont[seq[CHOOSE i \in hits : \A j \in hits : i <= j]][n]
 
+\* the qualified name the body of the first class of lin[c] that binds n gives it (contents first, then the import / alias table)
+BoundIn(st, c, n, lin) ==
+  LET seq == IF c \in DOMAIN lin THEN lin[c] ELSE <<c>>
+      hits == {i \in 1..Len(seq) : n \in DOMAIN st.cont[seq[i]] \/ n \in DOMAIN st.alias[seq[i]]}
+  IN IF hits = {} THEN <<>>
+     ELSE LET b == seq[CHOOSE i \in hits : \A j \in hits : i <= j]
+          IN IF n \in DOMAIN st.cont[b] THEN FN(st, st.cont[b][n]) ELSE st.alias[b][n]
+
 \* Module/Class/Inheritable._localNameToFullName
 RECURSIVE L2F(_, _, _)
 L2F(st, o, n) ==
@@ -172,9 +180,10 @@ Exp(st, o, parts, i, bo) ==
       f0   == IF i # 1 /\ Cls(st, o) = "Class" /\ p \notin DOMAIN st.cont[o] /\ p \notin DOMAIN st.alias[o]
                 THEN <<P(p)>> ELSE L2F(st, o, p)
       miss == f0 = <<P(p)>> /\ i # 1
-      inh  == IF miss /\ Cls(st, o) = "Class" THEN FindIn(st, o, p, bo) ELSE NoObj
-      notfound == miss /\ inh = NoObj
-      full == IF notfound THEN Append(FN(st, o), P(p)) ELSE IF miss THEN FN(st, inh) ELSE f0
+      \* inherited: what the body of the first class along Class.mro() binds to the name - a definition, or an import / alias
+      inh  == IF miss /\ Cls(st, o) = "Class" THEN BoundIn(st, o, p, bo) ELSE <<>>
+      notfound == miss /\ (inh = <<>> \/ inh = <<P(p)>>)     \* (`import p` in a class body binds p to "p": still "no full name")
+      full == IF notfound THEN Append(FN(st, o), P(p)) ELSE IF miss THEN inh ELSE f0
       rest == [j \in 1..(Len(parts) - i) |-> P(parts[i + j])]
       nxt  == Get(st, full)
   IN IF notfound \/ nxt = NoObj \/ i = Len(parts) THEN full \o rest
